@@ -629,6 +629,13 @@ def same_start(case, ctx):
     for j in range(nsig):
         if not np.array_equal(before[j], seen[j]):
             raise HarnessError("cluster does not hold the generated records")
+    if (nmin + nsig + master) % 2 == 0:
+        # the cluster is not fresh: it was already aligned once on another section (the first sample); the alignment that
+        # is checked below is the SECOND one on the same object and must work just the same
+        ctx.lib(cl.same_start, start=0, end=0)
+        ctx.cls("second-alignment")
+        before = [np.array(cl.values_by_index(j), dtype=float) for j in range(nsig)]
+        ctx.equal(before[master], seen[master], "master (signal %d) modified by a first same_start" % master)
     ctx.lib(cl.same_start, **kwargs)
     after = []
     for j in range(nsig):
